@@ -15,7 +15,9 @@ using namespace opensmt;
 #define NA 5            // at most NA current assertions
 #endif
 #define MAXK 4
+#ifndef MAXAND
 #define MAXAND 3        // a conjunction group names at most MAXAND assertions
+#endif
 
 // term universe: assertion i is the term 10+i; group g given as a conjunction is the term 100+g; 50 = some other term
 static PTRef group_term[MAXK];
@@ -37,6 +39,10 @@ extern "C" Pterm * stub_getPterm(Logic *, PTRef t) {
     return group_pterm[t.x - 100];
 }
 static bool cfg_inter; static int status_val;
+static int g_level;                          // ghost assertion level of the solver (DUP_TERMS mode)
+extern "C" bool stub_isIncremental(SMTConfig const *) { return true; }
+extern "C" std::size_t stub_getAssertionLevel(MainSolver const *) { return (std::size_t)g_level; }
+extern "C" bool stub_solver_pop(MainSolver *) { if (g_level == 0) return false; g_level--; return true; }
 extern "C" bool stub_produce_inter(SMTConfig const *) { return cfg_inter; }
 extern "C" int stub_certify_inter(SMTConfig const *) { return 0; }
 extern "C" sstat stub_getStatus(MainSolver const *) { return status_val == 0 ? s_False : status_val == 1 ? s_True : s_Undef; }
@@ -75,15 +81,52 @@ union ISlot { Interpret i; ISlot() {} ~ISlot() {} };
 template <int K> static void path_masks() {
     mpq_init(keep_mpq_type);
     static ISlot raw; Interpret * I = &raw.i;
-    // current assertions: na <= NA pairwise distinct terms; assertion i has partition index i
+    // na <= NA assertions executed so far; the i-th one got partition index i from MainSolver::insertFormula
     int na = nondet_u8(); VASSUME(na >= 1 && na <= NA);
     I->assertions.data = static_cast<PTRef *>(malloc(NA * sizeof(PTRef))); I->assertions.sz = na; I->assertions.cap = NA;
-    for (int i = 0; i < NA; i++) I->assertions.data[i] = PTRef{10u + (uint32_t)i};
+    // tid[i] = term of the i-th (assert ...) ever executed, live[i] = it has not been popped since
+    int tid[NA]; bool live[NA];
+    for (int i = 0; i < NA; i++) { tid[i] = i; live[i] = true; }
+    I->assertionLevels.data = static_cast<std::size_t *>(malloc(NA * sizeof(std::size_t))); I->assertionLevels.sz = na; I->assertionLevels.cap = NA;
+    for (int i = 0; i < NA; i++) { I->assertions.data[i] = PTRef{10u + (uint32_t)i}; I->assertionLevels.data[i] = 0; }
     *reinterpret_cast<void **>(reinterpret_cast<char *>(I) + __builtin_offsetof(Interpret, config)) = fake_config;
     new (&I->logic) std::unique_ptr<Logic>(reinterpret_cast<Logic *>(fake_logic));
     new (&I->main_solver) std::unique_ptr<MainSolver>(&fake_solver.m);
     // termNames of the raw solver object: no named terms (names are resolved by the parseTerm stub)
     new (&fake_solver.m.termNames.scopedNamesAndTerms) TermNames::ScopedNamesAndTerms();
+#ifdef DUP_TERMS
+    // incremental use. History: n1 assertions with pairwise distinct terms at nondecreasing assertion levels <= g_level,
+    // then the REAL Interpret::pop(k) (MainSolver::pop / getAssertionLevel are the ghost level counter), then na - n1
+    // further assertions at the current level, each of which may repeat the term of an assertion that has been popped
+    // (appended to assertions / assertionLevels as the t_assert case of Interpret::interp does after insertFormula)
+    {
+        int n1 = nondet_u8(); VASSUME(n1 <= na);
+        g_level = nondet_u8(); VASSUME(g_level <= 2);
+        std::size_t lvl[NA];
+        for (int i = 0; i < NA; i++) {
+            lvl[i] = nondet_u8(); VASSUME(lvl[i] <= (std::size_t)g_level);
+            if (i > 0) VASSUME(lvl[i - 1] <= lvl[i]);
+            I->assertionLevels.data[i] = lvl[i];
+        }
+        I->assertions.sz = n1; I->assertionLevels.sz = n1;
+        int k = nondet_u8(); VASSUME(k <= 2);
+        int before = g_level;
+        I->pop(k);
+        VASSERT(g_level == (k <= before ? before - k : before), "pop(k) pops k levels or nothing");
+        for (int i = 0; i < NA; i++) live[i] = i >= n1 || lvl[i] <= (std::size_t)g_level;
+        for (int i = 0; i < NA; i++) if (i >= n1 && i < na) {
+            tid[i] = nondet_u8();
+            VASSUME(tid[i] <= i && tid[tid[i]] == tid[i]);
+            for (int j = 0; j < NA; j++) if (j < i) VASSUME(tid[j] != tid[i] || !live[j]);
+#ifdef KF_C08_ASSERTION_INDEX_FIRST_MATCH
+            VASSUME(tid[i] == i);      // (repaired in /repo) get_assertion_index returned the first, possibly popped, assertion with the same term
+#endif
+            I->assertions.push(PTRef{10u + (uint32_t)tid[i]}); I->assertionLevels.push((std::size_t)g_level);
+        }
+        if (k >= 1 && k <= before && n1 >= 1 && !live[n1 - 1]) VWITNESS("assertion-popped");
+        if (na >= 2 && tid[na - 1] != na - 1) VWITNESS("term-re-asserted");
+    }
+#endif
     cfg_inter = nondet_bool(); status_val = nondet_u8() % 3;
     nctx = ncalls = nprinted = 0; bad_use = false; the_ctx = nullptr;
     // the K groups
@@ -93,17 +136,17 @@ template <int K> static void path_masks() {
         int kind = nondet_u8(); VASSUME(kind <= 3);
         group_kind[g] = kind;
         if (kind == 0) {
-            int a = nondet_u8(); VASSUME(a < na);
-            group_term[g] = PTRef{10u + (uint32_t)a}; acc |= (uint64_t)1 << a;
+            int a = nondet_u8(); VASSUME(a < na && live[a]);
+            group_term[g] = PTRef{10u + (uint32_t)tid[a]}; acc |= (uint64_t)1 << a;
         } else if (kind == 1 || kind == 2) {
             int m = nondet_u8(); VASSUME(m >= 2 && m <= MAXAND);
             Pterm * pt = static_cast<Pterm *>(malloc(sizeof(Pterm) + 4 * MAXAND));
             pt->header.type = 0; pt->header.has_extra = 0; pt->header.reloced = 0; pt->header.noscoping = 0; pt->header.size = m;
             pt->id.x = 100 + g; pt->sym = SymRef{1};
             for (int j = 0; j < MAXAND; j++) {
-                int a = nondet_u8(); VASSUME(a < na);
+                int a = nondet_u8(); VASSUME(a < na && live[a]);
                 bool foreign = kind == 2 && nondet_bool();
-                pt->args[j] = foreign ? PTRef{50} : PTRef{10u + (uint32_t)a};
+                pt->args[j] = foreign ? PTRef{50} : PTRef{10u + (uint32_t)tid[a]};
                 if (j < m) { if (foreign) { if (g < K - 1) all_valid = false; } else acc |= (uint64_t)1 << a; }
             }
             group_pterm[g] = pt; group_term[g] = PTRef{100u + (uint32_t)g};
@@ -132,7 +175,7 @@ template <int K> static void path_masks() {
         VASSERT(ncalls == K - 1, "k groups are answered by k-1 single interpolation calls");
         for (int i = 0; i < K - 1; i++) {
             VASSERT(rec_this[i] == the_ctx, "every mask is answered on the same interpolation context");
-            VASSERT(rec_small[i] && rec_mask[i] == expect[i], "mask i is the union of the partition bits of the assertions in groups 0..i");
+            VASSERT(rec_small[i] && rec_mask[i] == expect[i], "mask i is the union of the partition bits of the current assertions named in groups 0..i");
             if (i > 0) VASSERT((rec_mask[i - 1] & ~rec_mask[i]) == 0, "masks are nested");
         }
         VASSERT(nprinted == K - 1, "k-1 interpolants are printed");
